@@ -48,6 +48,7 @@
 struct pcp_filename {
     char *filename;
     int file_specified_by_user;
+    int is_directory;
 };
 
 /* expand directories, if any, and verify access for all files */
